@@ -246,7 +246,11 @@ func (c *Decoder) decodeIfStatement() (*ast.IfStatement, error) {
 		case FIN:
 			return nil, unexpectedFinByte()
 		case IF_STATEMENT:
+			if err := c.enter(); err != nil {
+				return nil, err
+			}
 			another, err := c.decodeIfStatement()
+			c.leave()
 			if err != nil {
 				return nil, errors.WithStack(err)
 			}
